@@ -122,6 +122,13 @@ check(
     "The selected parameter's own default may take the value of a same-named input class attribute (designed behaviour), nothing else may change; param->attr pairs are outside the generated domain.",
 )
 
+check(
+    "C12",
+    "Hypothesis-generated triples of files x truth kind x present/missing/empty states x 1..3 runs of the sync CLI entry; re-parse-equals-truth, outside-AST-unchanged and byte-idempotence oracles",
+    "Generated-input search over initial states and histories: after run 1 every listed file must compile, each named target re-parsed with the matching cdd parser must have the truth's interface (names, order, types, defaults, descriptions under the per-format normalisations), the truth's own interface must be unchanged, the AST of each file with the named target removed must be unchanged; runs 2 and 3 must leave every file byte-identical.",
+    "P9 (open, cannot be repaired with the suite unedited) relaxes 'target conforms' for function/argparse targets and idempotence/outside for Class.method targets only; class targets (present, missing, empty), truth-unchanged, compilation and byte-stability of class/argparse files stay strict.",
+)
+
 NOT_YET = "check not built yet in this round (work in progress; DESIGN.md section 4 has the plan)"
 
 
